@@ -199,6 +199,8 @@ pub fn c01(tier: Tier) -> PropSpec {
                 },
                 |c: &SemCase, st| c01_check(c, st, true),
             ),
+            Box::new(Logged(Part::new("small-with-logging", tier.pick(1500, 15000), move || sem_case(1, 5), |c: &SemCase, st| c01_check(c, st, false)))),
+            crate::props::cli::sem_cli_part("cli-grd", &[crate::props::cli::Flag::Grd], tier.pick(150, 1500)),
         ],
     }
 }
@@ -271,7 +273,9 @@ pub fn c02(tier: Tier) -> PropSpec {
             tier.pick(30000, 400000),
             move || sem_case(1, hi),
             c02_check,
-        )],
+        ),
+        Box::new(Logged(Part::new("small-with-logging", tier.pick(1500, 15000), || sem_case(1, 5), c02_check))),
+        crate::props::cli::sem_cli_part("cli-com", &[crate::props::cli::Flag::Com, crate::props::cli::Flag::Grd], tier.pick(150, 1500))],
     }
 }
 
@@ -297,6 +301,7 @@ fn c03_check(c: &SemCase, st: &mut Stats) -> CheckResult {
             ("native", Backend::Native),
             ("hybrid(pre)", Backend::HybridPre),
             ("hybrid(nopre)", Backend::HybridNoPre),
+            ("from_biodivine", Backend::FromBio),
         ] {
             let mut a = build_native_like(p, b);
             answers.push((format!("{nm}.stable()"), a.stable().collect()));
@@ -362,7 +367,9 @@ pub fn c03(tier: Tier) -> PropSpec {
             tier.pick(40000, 500000),
             move || sem_case(1, hi),
             c03_check,
-        )],
+        ),
+        Box::new(Logged(Part::new("small-with-logging", tier.pick(1500, 15000), || sem_case(1, 5), c03_check))),
+        crate::props::cli::sem_cli_part("cli-stm", &[crate::props::cli::Flag::Stm, crate::props::cli::Flag::StmPre, crate::props::cli::Flag::StmRew, crate::props::cli::Flag::StmRew2], tier.pick(150, 1500))],
     }
 }
 
@@ -383,6 +390,7 @@ fn c04_check(c: &SemCase, st: &mut Stats) -> CheckResult {
             ("native", Backend::Native),
             ("hybrid(pre)", Backend::HybridPre),
             ("hybrid(nopre)", Backend::HybridNoPre),
+            ("from_biodivine", Backend::FromBio),
         ] {
             let mut a = build_native_like(p, b);
             // classification from the public API: which branch would the first choice take
@@ -443,7 +451,9 @@ pub fn c04(tier: Tier) -> PropSpec {
             tier.pick(150000, 2000000),
             move || sem_case(1, hi),
             c04_check,
-        )],
+        ),
+        Box::new(Logged(Part::new("small-with-logging", tier.pick(1500, 15000), || sem_case(1, 5), c04_check))),
+        crate::props::cli::sem_cli_part("cli-stmc", &[crate::props::cli::Flag::StmCa, crate::props::cli::Flag::StmCb], tier.pick(150, 1500))],
     }
 }
 
@@ -559,7 +569,7 @@ fn c05_check(c: &C05Case, st: &mut Stats) -> CheckResult {
     let (grd, _) = o.grounded();
     let und = grd.iter().filter(|t| !t.decided()).count();
     let limit = 2 * (2 * n as u64 + 4) * (pow3(n) + 1);
-    let backend = [Backend::Native, Backend::HybridPre, Backend::HybridNoPre][(c.backend % 3) as usize];
+    let backend = [Backend::Native, Backend::HybridPre, Backend::HybridNoPre, Backend::FromBio][(c.backend % 4) as usize];
     let res = sut::with_parser(&text, c.sem.sort, |p| -> Result<(u64, u64), String> {
         let names = parser_names(p);
         let perm = sut::perm_from_names(&names, &c.sem.adf.labels)?;
@@ -710,7 +720,7 @@ fn c05_check(c: &C05Case, st: &mut Stats) -> CheckResult {
         st.label("custom_heuristic_calls>=2");
     }
     if und >= 2 && (calls >= 2 || ticks >= 6) {
-        st.nontrivial(stable_hash(&(case_hash(&c.sem), format!("{:?}{:?}", c.heu, c.mode), c.backend % 3)), || {
+        st.nontrivial(stable_hash(&(case_hash(&c.sem), format!("{:?}{:?}", c.heu, c.mode), c.backend % 4)), || {
             json!({"text": text, "heuristic": format!("{:?}", c.heu), "mode": format!("{:?}", c.mode),
                    "expected": show_set(&expected), "loop_iterations": ticks, "custom_heuristic_calls": calls})
         });
@@ -740,12 +750,24 @@ pub fn c05(tier: Tier) -> PropSpec {
             tier.pick(150000, 2000000),
             300,
             move || {
-                (sem_case(1, hi), heu_strategy(), prop_oneof![4 => Just(NgMode::StableIter), 4 => Just(NgMode::StableChannel), 4 => Just(NgMode::TwoValChannel), 1 => (0u8..3).prop_map(NgMode::StableBounded), 1 => (0u8..3).prop_map(NgMode::TwoValBounded)], 0u8..3)
+                (sem_case(1, hi), heu_strategy(), prop_oneof![4 => Just(NgMode::StableIter), 4 => Just(NgMode::StableChannel), 4 => Just(NgMode::TwoValChannel), 1 => (0u8..3).prop_map(NgMode::StableBounded), 1 => (0u8..3).prop_map(NgMode::TwoValBounded)], 0u8..4)
                     .prop_map(|(sem, heu, mode, backend)| C05Case { sem, heu, mode, backend })
                     .boxed()
             },
             c05_check,
-        )],
+        ),
+        Box::new(Logged(Part::with_shrink(
+            "search-with-logging",
+            tier.pick(3000, 30000),
+            200,
+            || {
+                (sem_case(1, 5), heu_strategy(), prop_oneof![Just(NgMode::StableIter), Just(NgMode::TwoValChannel)], 0u8..4)
+                    .prop_map(|(sem, heu, mode, backend)| C05Case { sem, heu, mode, backend })
+                    .boxed()
+            },
+            c05_check,
+        ))),
+        crate::props::cli::sem_cli_part("cli-stmng", &[crate::props::cli::Flag::StmNg, crate::props::cli::Flag::TwoVal], tier.pick(150, 1500))],
     }
 }
 
